@@ -3,7 +3,7 @@
 From Coq Require Import String.
 From Coq Require Import List Ascii ZArith Bool Lia.
 From CGV Require Import Base.PyBase Base.PyVal Base.NxGraph Resolve.Bonding Resolve.GraphOps Resolve.Pipeline
-     Resolve.StepCheck Resolve.MapDefs Resolve.Witness Resolve.VirtualProofs Resolve.MapProofs Resolve.CopyProofs Resolve.PipelineFull Resolve.FragidProofs Resolve.VirtualStep Resolve.C11Check.
+     Resolve.StepCheck Resolve.MapDefs Resolve.Witness Resolve.VirtualProofs Resolve.MapProofs Resolve.CopyProofs Resolve.PipelineFull Resolve.FragidProofs Resolve.VirtualStep Resolve.ZeroEdgeStep Resolve.C11Check.
 From CGV Require Hydro.Hydrogens.
 Import ListNotations.
 Open Scope Z_scope.
@@ -206,6 +206,35 @@ Proof.
     * destruct Hin as [Hin|[]]. discriminate Hin.
 Qed.
 
+(** ---- an extra order-0 EDGE (e.g. a zero-order ring bond between two coarse nodes), Resolve/ZeroEdgeStep.v *)
+(** networkx remove_edge on the edge list: exactly the edge a-b (either direction) disappears, order kept *)
+Theorem C11_edges_after_remove_edge : forall g a b, NoDup (node_keys g) ->
+  edges_data (remove_edge g a b) = filter (fun e => negb (is_ab a b e)) (edges_data g).
+Proof. exact edges_data_remove_edge. Qed.
+(** [zedge a b g]: the edge a-b carries the integer order 0 in both adjacency views.  At any level, for any flags, dictionary and
+    transcript the step on the coarse graph without the edge returns - or raises - exactly what the step with it returns
+    (raises); only the coarse graph handed back differs.  No hypothesis on the dictionary *)
+Theorem C11_step_remove_zero_edge : forall legacy aa fd prev car a b, NoDup (node_keys prev) -> zedge a b (meta_in prev) ->
+  resolve_step_full legacy aa fd (remove_edge prev a b) car =
+  match resolve_step_full legacy aa fd prev car with
+  | Ok fo => Ok (with_meta fo (remove_edge (meta_in prev) a b))
+  | Err e => Err e
+  end.
+Proof. exact step_remove_zero_edge. Qed.
+(** non-vacuity: {[#A]1[#B].[#B]1} with the ring bond of order 0 (nodes 0 and 2); the step returns *)
+Definition base_AB_B0 : graph := [cnode 0 "A" [(1, 1); (2, 0)]; cnode 1 "B" [(0, 1)]; cnode 2 "B" [(0, 0)]].
+Example C11_step_remove_zero_edge_nonvacuous :
+  NoDup (node_keys base_AB_B0) /\ zedge 0 2 (meta_in base_AB_B0) /\
+  graph_eqb (remove_edge base_AB_B0 0 2) [cnode 0 "A" [(1, 1)]; cnode 1 "B" [(0, 1)]; cnode 2 "B" []] = true /\
+  match resolve_step_full true false fd_AB base_AB_B0 None with Ok fo => Nat.eqb (length (fo_mol fo)) 4 | Err _ => false end = true.
+Proof.
+  split; [vm_compute; repeat constructor; cbn; intuition discriminate|]. split; [|split; vm_compute; reflexivity].
+  change (meta_in base_AB_B0) with base_AB_B0.
+  intros n [<-|[<-|[<-|[]]]]; split; intros Hk d Hin; try discriminate Hk; vm_compute in Hin.
+  - destruct Hin as [Hin|[Hin|[]]]; [discriminate Hin|]. inversion Hin; subst. reflexivity.
+  - destruct Hin as [Hin|[]]. inversion Hin; subst. reflexivity.
+Qed.
+
 (** ---- order-0 edges make no bond (corollaries of the proved bond fold of C03) *)
 Theorem C11_no_bond_for_order0 : forall legacy arom a b s acc, edge_loop legacy arom (Z.to_nat 0) a b s acc = Ok (s, acc).
 Proof. exact no_bond_for_order0. Qed.
@@ -236,3 +265,5 @@ Print Assumptions C11_meta_remove.
 Print Assumptions C11_step_remove_virtual_any.
 Print Assumptions C11_step_insert_virtual_any.
 Print Assumptions C11_step_virtual_iff_any.
+Print Assumptions C11_edges_after_remove_edge.
+Print Assumptions C11_step_remove_zero_edge.
